@@ -1,6 +1,7 @@
 #include "preprocess/fields.hh"
 #include "util/exception.hh"
 
+#include <errno.h>
 #include <stdlib.h>
 
 #include <algorithm>
@@ -9,9 +10,12 @@ namespace preprocess {
 
 namespace {
 unsigned int ConsumeInt(const char *&arg) {
+  // strtoul would also accept leading white space and a sign, and wraps negative numbers.
+  UTIL_THROW_IF(*arg < '0' || *arg > '9', util::Exception, "Expected field " << arg << " to begin with a number.");
   char *end;
-  unsigned int ret = strtoul(arg, &end, 10);
-  UTIL_THROW_IF(end == arg, util::Exception, "Expected field " << arg << " to begin with a number.");
+  errno = 0;
+  unsigned long ret = strtoul(arg, &end, 10);
+  UTIL_THROW_IF(errno || ret >= FieldRange::kInfiniteEnd, util::Exception, "Field number " << arg << " is too large.");
   arg = end;
   return ret;
 }
@@ -19,12 +23,15 @@ unsigned int ConsumeInt(const char *&arg) {
 
 void ParseFields(const char *arg, std::vector<FieldRange> &indices) {
   FieldRange add;
+  UTIL_THROW_IF(!*arg, util::Exception, "Empty field list.");
   while (*arg) {
     if (*arg == '-') {
       add.begin = 0;
     } else {
+      add.begin = ConsumeInt(arg);
+      UTIL_THROW_IF(!add.begin, util::Exception, "Fields are numbered from 1.");
       // -1 because cut is 1-indexed.
-      add.begin = ConsumeInt(arg) - 1;
+      --add.begin;
     }
     switch (*arg) {
       case ',': case 0:
@@ -47,6 +54,8 @@ void ParseFields(const char *arg, std::vector<FieldRange> &indices) {
     // Swallow ,
     if (*arg == ',') {
       ++arg;
+    } else {
+      UTIL_THROW_IF(*arg, util::Exception, "Expected , after field range, not " << arg);
     }
     indices.push_back(add);
   }
